@@ -21,17 +21,58 @@ def WF (p : Peer) : Prop := ∀ r ∈ p.rib, (famIds p).contains r.fam = true
 
 /-- A session loss is treated as a graceful restart iff GR was negotiated and the loss is a transport
 failure (read or write), a hold-timer expiry (whether or not the NOTIFICATION could be written), or a
-received NOTIFICATION other than Hard Reset while the N bit was negotiated.  In particular a received
-Hard Reset, a NOTIFICATION we sent (including the prefix-limit Cease) and an administrative shutdown
-are never graceful. -/
+received NOTIFICATION — of ANY error code and subcode except exactly Cease (6) / Hard Reset (9) — while
+the N bit was negotiated.  In particular a received Cease/Hard Reset, every NOTIFICATION we sent
+whatever its code and subcode (including the prefix-limit Cease) and an administrative shutdown are
+never graceful, and subcode 9 under another error code (e.g. 3/9, Optional Attribute Error) IS graceful. -/
+theorem graceful_notifRecv (en nb : Bool) (code sub : Nat) :
+    graceful en nb (.notifRecv code sub) = (en && nb && !(code == 6 && sub == 9)) := by
+  by_cases hc : code = 6 <;> by_cases hs : sub = 9 <;> cases en <;> cases nb <;>
+    simp [graceful, classify, rawReason, reasonChGraceful, hc, hs]
+
 theorem graceful_iff (en nb : Bool) (k : Loss) :
     graceful en nb k = true ↔
       en = true ∧ (k = .readFail ∨ k = .writeFail ∨ k = .holdExpiry ∨ k = .holdExpiryWriteErr ∨
-                   (k = .notifRecv ∧ nb = true)) := by
-  cases en <;> cases nb <;> cases k <;> decide
+                   (∃ code sub, k = .notifRecv code sub ∧ nb = true ∧ ¬ (code = 6 ∧ sub = 9))) := by
+  cases k with
+  | notifRecv code sub =>
+    rw [graceful_notifRecv]
+    constructor
+    · intro h
+      simp only [Bool.and_eq_true, Bool.not_eq_true', Bool.and_eq_false_iff, beq_eq_false_iff_ne, ne_eq] at h
+      obtain ⟨⟨he, hn⟩, hcs⟩ := h
+      refine ⟨he, Or.inr (Or.inr (Or.inr (Or.inr ⟨code, sub, rfl, hn, ?_⟩)))⟩
+      rintro ⟨h1, h2⟩
+      rcases hcs with h | h
+      · exact h h1
+      · exact h h2
+    · rintro ⟨he, h⟩
+      rcases h with h | h | h | h | ⟨c, s, hk, hn, hcs⟩
+      · cases h
+      · cases h
+      · cases h
+      · cases h
+      · injection hk with h1 h2
+        subst h1; subst h2
+        by_cases hc : code = 6 <;> by_cases hs : sub = 9 <;> simp_all
+  | notifSent code sub =>
+    cases en <;> cases nb <;> simp [graceful, classify, rawReason, reasonChGraceful]
+  | _ => cases en <;> cases nb <;> simp [graceful, classify, rawReason, reasonChGraceful]
 
-example : graceful true false .holdExpiry = true ∧ graceful true false .notifRecv = false ∧
-    graceful true true .notifRecv = true ∧ graceful true true .notifRecvHard = false ∧
+/-- the received-NOTIFICATION clause on its own, over the whole (code, subcode) space -/
+theorem notification_graceful_iff (en nb : Bool) (code sub : Nat) :
+    graceful en nb (.notifRecv code sub) = true ↔ en = true ∧ nb = true ∧ ¬ (code = 6 ∧ sub = 9) := by
+  rw [graceful_notifRecv]
+  by_cases hc : code = 6 <;> by_cases hs : sub = 9 <;> cases en <;> cases nb <;> simp [hc, hs]
+
+/-- no NOTIFICATION we send makes the loss graceful, whatever its code and subcode -/
+theorem sent_notification_never_graceful (en nb : Bool) (code sub : Nat) :
+    graceful en nb (.notifSent code sub) = false := by
+  cases en <;> cases nb <;> simp [graceful, classify, rawReason, reasonChGraceful]
+
+example : graceful true false .holdExpiry = true ∧ graceful true false (.notifRecv 6 6) = false ∧
+    graceful true true (.notifRecv 6 6) = true ∧ graceful true true (.notifRecv 6 9) = false ∧
+    graceful true true (.notifRecv 3 9) = true ∧ graceful true true (.notifRecv 0 255) = true ∧
     graceful true true .prefixLimit = false ∧ graceful false true .readFail = false := by decide
 
 /-! ## 2. the split on loss -/
